@@ -165,7 +165,7 @@ struct HttpSinkFile : public HttpSink
 	}
 };
 
-HttpMessage::HttpMessage() : _proto("HTTP/1.1"), _socket(NULL), _fileBody(false), _chunked(false)
+HttpMessage::HttpMessage() : _proto("HTTP/1.1"), _socket(NULL), _fileBody(false), _chunked(false), _ownChunks(false)
 {
 	_sink = new HttpSinkArray(_body);
 	_headersSent = false;
@@ -750,6 +750,13 @@ bool HttpMessage::sendHeaders()
 	// (RFC 7230 3.3.2), whichever of put(), putFile() or the owner set one
 	if (endsChunked(header("Transfer-Encoding")))
 		setHeader("Content-Length", String());
+	else if (!hasHeader("Content-Length") && !hasHeader("Transfer-Encoding") && _command.startsWith("HTTP/"))
+	{
+		// a response written in pieces with neither a length nor a coding: its pieces go out as chunks (_chunked below),
+		// so the coding is announced; the framing being the library's choice, the library also ends the message (write())
+		setHeader("Transfer-Encoding", "chunked");
+		_ownChunks = true;
+	}
 
 	String s;
 	s << _command << "\r\n";
@@ -772,10 +779,11 @@ bool HttpMessage::write()
 {
 	if (_fileBody)
 		return putFile(_body);
-	bool whole = !_headersSent; // headers and body are written here: the message also ends here
+	bool whole = !_headersSent || _ownChunks; // headers and body are written here, or the chunks are the library's own: the message also ends here
 	bool ok = write((const char*)_body.data(), _body.length()) > 0;
 	if (whole && endsChunked(header("Transfer-Encoding")))
 		*_socket << "0\r\n\r\n"; // last chunk
+	_ownChunks = false;
 	return ok;
 }
 
